@@ -627,6 +627,10 @@ func (e *Env) callPure(n *ast.CallExpr, pf *PureFunc) Term {
 			i++
 		}
 	}
+	if pf.GhostFun {
+		f, args := ne.ghostFunFamily(pf, decl)
+		return e.st.readFam(e.cur, f, args...)
+	}
 	if pf.Virtual {
 		var sorts []Sort
 		var args []Term
@@ -812,6 +816,9 @@ func (e *Env) evalLocSet(a ast.Expr) []LocSet {
 		if v, ok := e.info.Uses[n.Sel].(*types.Var); ok && v.Pkg() != nil && v.Parent() == v.Pkg().Scope() {
 			return e.globalLocSets(v)
 		}
+		if pf := e.st.ex.prog.ghostFunOf(e.info, n); pf != nil {
+			break
+		}
 		sel := e.info.Selections[n]
 		if sel == nil || sel.Kind() != types.FieldVal {
 			e.fail(n, "bad location")
@@ -962,6 +969,17 @@ func (e *Env) evalLocSet(a ast.Expr) []LocSet {
 		if v, ok := e.info.Uses[se.Sel].(*types.Var); ok && v.Parent() == v.Pkg().Scope() {
 			return e.globalLocSets(v)
 		}
+	}
+	if pf := e.st.ex.prog.ghostFunOf(e.info, a); pf != nil {
+		obj := e.st.ex.prog.Pkgs[pf.PkgPath].Types.Scope().Lookup(pf.FnName)
+		sig := obj.Type().(*types.Signature)
+		var sorts []Sort
+		for k := 0; k < sig.Params().Len(); k++ {
+			sorts = append(sorts, e.u().sortOf(sig.Params().At(k).Type()))
+		}
+		name := "GF." + sanitize(strings.TrimPrefix(pf.PkgPath, modPath+"/")) + "." + pf.Name
+		f := e.st.family(name, sorts, e.u().sortOf(sig.Results().At(0).Type()))
+		return []LocSet{{Fam: f.Name, Region: true, Ghost: true, Obj: intLit(0), Desc: pf.Name}}
 	}
 	e.fail(a, "unsupported location expression %s", types.ExprString(a))
 	return nil
@@ -1297,4 +1315,39 @@ func andGuard(g *Term, c Term) *Term {
 	}
 	t := and(*g, c)
 	return &t
+}
+
+// ghostFunFamily: the heap family behind a `ghostfun` and the argument terms bound in this environment
+func (e *Env) ghostFunFamily(pf *PureFunc, decl *ast.FuncDecl) (*Family, []Term) {
+	var sorts []Sort
+	var args []Term
+	for _, fld := range decl.Type.Params.List {
+		for _, nm := range fld.Names {
+			v := e.vars[nm.Name].Val
+			sorts = append(sorts, v.Sort)
+			args = append(args, v)
+		}
+	}
+	obj := e.st.ex.prog.Pkgs[pf.PkgPath].Types.Scope().Lookup(pf.FnName)
+	rs := e.u().sortOf(obj.Type().(*types.Signature).Results().At(0).Type())
+	name := "GF." + sanitize(strings.TrimPrefix(pf.PkgPath, modPath+"/")) + "." + pf.Name
+	return e.st.family(name, sorts, rs), args
+}
+
+func (p *Program) ghostFunOf(info *types.Info, fun ast.Expr) *PureFunc {
+	var obj types.Object
+	switch f := fun.(type) {
+	case *ast.Ident:
+		obj = info.Uses[f]
+	case *ast.SelectorExpr:
+		obj = info.Uses[f.Sel]
+	}
+	fn, ok := obj.(*types.Func)
+	if !ok || fn.Pkg() == nil {
+		return nil
+	}
+	if pf, ok := p.Pures[fn.Pkg().Path()+"."+fn.Name()]; ok && pf.GhostFun {
+		return pf
+	}
+	return nil
 }
